@@ -249,6 +249,16 @@ def discharge(site, prov, lf, body):
                 if ix[1] == "BitAnd" and ix[3][2] < ln[2] or ix[1] == "Rem" and ix[3][2] <= ln[2]:
                     return ("D0", "masked/reduced index into fixed-size array")
             return None
+        if w.startswith("Overflow(") and len(ops) == 2 and all(o[0] == "const" for o in ops):
+            # both operands are literals: evaluate in the operand type
+            a_, b_ = ops[0][2], ops[1][2]
+            ty = ops[0][1]
+            bits = {"u8": 8, "u16": 16, "u32": 32, "u64": 64, "usize": 64, "u128": 128, "i8": 8, "i16": 16, "i32": 32, "i64": 64, "isize": 64, "i128": 128}.get(ty)
+            if bits:
+                lo, hi = (-(1 << (bits - 1)), (1 << (bits - 1)) - 1) if ty.startswith("i") else (0, (1 << bits) - 1)
+                r = {"Add": a_ + b_, "Sub": a_ - b_, "Mul": a_ * b_}.get(w[len("Overflow("):].split(")")[0])
+                if r is not None and lo <= r <= hi:
+                    return ("D0", "constant operands, result %d fits %s" % (r, ty))
         if w.startswith("Overflow(Add)") or w.startswith("Overflow(Mul)"):
             if all(is_lenlike(o) for o in ops):
                 return ("D4", "sum/product of byte lengths of in-memory data and small literals")
